@@ -1,6 +1,7 @@
 package main
 
 import (
+	"path"
 	"fmt"
 	"strconv"
 	"go/types"
@@ -131,6 +132,35 @@ func (a *Act) intrinsic(name string, fv FuncV, args []Value) (Value, bool) {
 			out.alts = append(out.alts, IfaceAlt{g: al.g, typ: al.typ, val: a.deepClone(al.val, al.typ, 0)})
 		}
 		return out, true
+	case "github.com/golang/protobuf/proto.DiscardUnknown", "google.golang.org/protobuf/proto.DiscardUnknown":
+		// modelled on messages of the legacy shape only: the unknown fields live in XXX_unrecognized
+		iv := args[0].(IfaceV)
+		for _, al := range iv.alts {
+			pt, ok := al.typ.(*types.Pointer)
+			if !ok {
+				panic(unsupported(name + " on " + al.typ.String()))
+			}
+			st, ok := pt.Elem().Underlying().(*types.Struct)
+			idx := -1
+			if ok {
+				for i := 0; i < st.NumFields(); i++ {
+					if st.Field(i).Name() == "XXX_unrecognized" {
+						idx = i
+					}
+				}
+			}
+			if idx < 0 {
+				panic(unsupported(name + " on a message without XXX_unrecognized: " + al.typ.String()))
+			}
+			p := al.val.(PtrV)
+			for _, pa := range p.alts {
+				root := a.st.heap[pa.obj].v
+				path := append(append([]int{}, pa.path...), idx)
+				old := navigate(root, path)
+				a.st.heap[pa.obj] = nv(update(root, path, iteVal(And(al.g, pa.g), SliceV{arr: nilPtr(), len: BV(64, 0), cap: BV(64, 0)}, old)))
+			}
+		}
+		return nil, true
 	case "google.golang.org/protobuf/encoding/protojson.Marshal":
 		return TupleV{SliceV{arr: nilPtr(), len: BV(64, 0), cap: BV(64, 0)}, nilIface()}, true
 	case "time.AfterFunc":
@@ -411,7 +441,29 @@ func (a *Act) intrinsic(name string, fv FuncV, args []Value) (Value, bool) {
 		}
 		return a.callFunc(FuncV{fn: sum}, args), true
 	case "fmt.Sprintf", "fmt.Sprint", "fmt.Sprintln":
+		if name == "fmt.Sprintf" {
+			// concrete folding: a constant format over concrete strings is computed by the real function
+			if f, ok := args[0].(StrV); ok && f.conc && len(args) == 2 {
+				if xs, ok := a.concStrings(args[1], true); ok {
+					ifs := make([]interface{}, len(xs))
+					for i := range xs {
+						ifs[i] = xs[i]
+					}
+					return ConcStr(fmt.Sprintf(f.s, ifs...)), true
+				}
+			}
+		}
 		return StrV{id: in.fresh("fmt", BVS(32))}, true
+	case "path.Join", "path.Clean", "path/filepath.Join", "path/filepath.Clean":
+		// pure string functions: computed by the real function on concrete strings, unsupported otherwise
+		if strings.HasSuffix(name, ".Clean") {
+			if x, ok := args[0].(StrV); ok && x.conc {
+				return ConcStr(path.Clean(x.s)), true
+			}
+		} else if xs, ok := a.concStrings(args[0], false); ok {
+			return ConcStr(path.Join(xs...)), true
+		}
+		panic(unsupported(name + " on a symbolic string"))
 	case "fmt.Errorf", "errors.New":
 		tag := fmt.Sprintf("err#%d", in.nextObj)
 		in.nextObj++
@@ -980,4 +1032,30 @@ func (in *Interp) lockHookFrom() int {
 		return in.lockHookMin
 	}
 	return 2
+}
+
+// concStrings reads a slice of concrete strings (boxed: a slice of interfaces holding strings).
+func (a *Act) concStrings(v Value, boxed bool) ([]string, bool) {
+	sl, ok := v.(SliceV)
+	if !ok || !sl.len.IsConst() {
+		return nil, false
+	}
+	n := int(sl.len.val)
+	out := make([]string, 0, n)
+	for i := 0; i < n; i++ {
+		e := a.sliceElem(sl, i)
+		if boxed {
+			iv, ok := e.(IfaceV)
+			if !ok || len(iv.alts) != 1 {
+				return nil, false
+			}
+			e = iv.alts[0].val
+		}
+		x, ok := e.(StrV)
+		if !ok || !x.conc {
+			return nil, false
+		}
+		out = append(out, x.s)
+	}
+	return out, true
 }
